@@ -20,6 +20,23 @@ def cases(tier, seed):
     # analyse -> edit the same model object in place -> analyse again with the same operation object
     for m in sp.structures_upto(4 if tier == 'quick' else 5):
         yield ('SE', m)
+    # the abstract flag has no influence on configurations: every single feature abstract, all abstract
+    for m in sp.structures_upto(4):
+        feats = sh.names(m)
+        for subset in [(n,) for n in feats] + [tuple(feats)]:
+            def rec(f, subset=subset):
+                return (f[0], tuple((a, b, tuple(rec(k) for k in kids)) for (a, b, kids) in f[1]), f[0] in subset, f[3], f[4], f[5])
+            yield ('S', (rec(m[0]), ()))
+    # names that are prefixes of / dotted combinations of other names of the model, at every position
+    for m in sp.structures(4):
+        for names4 in (('EngineSystem', 'Engine', 'Eng', 'EngineSystemX'), ('Net', 'Wifi.Secure', 'Net.Wifi', 'Secure'),
+                       ('GPSNavigation', 'Maps', 'GPS', 'GPSNav')):
+            for rot in range(4):
+                mapping = dict(zip(sh.names(m), names4[rot:] + names4[:rot]))
+
+                def ren(f, mapping=mapping):
+                    return (mapping[f[0]], tuple((a, b, tuple(ren(k) for k in kids)) for (a, b, kids) in f[1]), f[2], f[3], f[4], f[5])
+                yield ('S', (ren(m[0]), ()))
     # two executions of the operation that overlap (see vmc.sched): every pair of 3-feature models and a
     # few wider groups
     small = list(sp.structures(3))
